@@ -94,3 +94,30 @@ def kitchen_sink():
             "simple_ok": ["point", "circle", "poly", "bag_of_stuff", "base", "left", "right", "both", "wrapper", "wrapper_d",
                           "wide", "narrow", "class", "union", "vehicle", "boat", "plane", "drone", "named", "dated", "record", "priced", "document"],
             "features": {"hand_written": True}}
+
+
+def inverse_sink():
+    """hand-written companion of the kitchen sink for the INVERSE resolver (C11): an inverse declared over a SUBTYPE of the entity that
+    owns the inverted attribute, a referrer entity that REDECLARES the inverted attribute, an inverse on a subtype of the referent,
+    inverses over single and aggregate attributes, a self-referencing entity, and an ANDOR family of referents"""
+    def IV(name, ent, attr, agg="SET"):
+        return {"name": name, "ent": ent, "attr": attr, "agg": agg, "lo": 0, "hi": None}
+    ents = [
+        ENT("item", [A("name", T("string"))], super_expr="special_item ANDOR flagged_item",
+            inverse=[IV("used_in", "assembly", "parts"), IV("sub_used", "sub_assembly", "parts"), IV("strictly_used", "strict_assembly", "parts", "BAG"),
+                     IV("kept_by", "keeper", "kept")]),
+        ENT("special_item", [], supers=["item"], inverse=[IV("approved_by", "approval", "approved")]),
+        ENT("flagged_item", [A("flag", T("bool"))], supers=["item"]),
+        ENT("assembly", [A("parts", AGG("LIST", 1, None, E("item")))]),
+        ENT("sub_assembly", [A("level", T("int"))], supers=["assembly"]),
+        ENT("strict_assembly", [dict(A("parts", AGG("LIST", 1, None, E("special_item"))), redecl="assembly")], supers=["assembly"]),
+        ENT("approval", [A("approved", E("special_item")), A("also", E("item"), True)]),
+        ENT("keeper", [A("kept", E("item"))]),
+        ENT("strict_keeper", [dict(A("kept", E("special_item")), redecl="keeper")], supers=["keeper"]),
+        ENT("node", [A("parent", E("node"), True), A("peers", AGG("LIST", 0, None, E("node")))],
+            inverse=[IV("children", "node", "parent"), IV("peer_of", "node", "peers", "BAG")]),
+    ]
+    return {"name": "inverse_sink", "types": [], "entities": ents,
+            "legal_complex": [["item", "special_item", "flagged_item"]],
+            "simple_ok": ["item", "special_item", "flagged_item", "assembly", "sub_assembly", "strict_assembly", "approval", "keeper", "strict_keeper", "node"],
+            "features": {"hand_written": True, "inverse": True}}
